@@ -435,14 +435,31 @@ func (w *world) boot(n *node, peers []uint64) error {
 	for _, o := range w.nodes {
 		conn.AddNode(o.id, o.addr)
 	}
-	ds, err := storage.NewVerifDataset(w.meta, n.db, tr, conn)
+	meta := w.meta
+	if peers == nil {
+		// a node that is added to the partition later: its catalogue lists the replicas so far, and applying the
+		// entry "add this node" (partition.addNode) is what loads the group
+		var others []uint64
+		for _, id := range w.meta.Partitions[0].NodeIds {
+			if id != n.id {
+				others = append(others, id)
+			}
+		}
+		meta.Partitions = []*pb.Partition{{Id: w.meta.Partitions[0].Id, NodeIds: others}}
+	}
+	ds, err := storage.NewVerifDataset(meta, n.db, tr, conn)
 	if err != nil {
 		return err
 	}
 	n.mu.Lock()
 	n.conn, n.tr, n.ds = conn, tr, ds
 	n.mu.Unlock()
-	if err := ds.VerifLoadRaft(0, peers); err != nil {
+	if peers == nil {
+		ds.VerifAddNode(0, n.id)
+		if ds.VerifRaft(0) == nil {
+			return fmt.Errorf("partition.addNode did not load the raft group")
+		}
+	} else if err := ds.VerifLoadRaft(0, peers); err != nil {
 		return err
 	}
 	n.mu.Lock()
